@@ -337,3 +337,76 @@ package codecs
 //@ spec (*AV1Depacketizer).IsPartitionHead
 //@   ensures head [C09,C13]: result0 <==> (len(payload) >= 1 && bits(payload[0], 7, 7) == 0)
 //@ end
+
+// ===== C12 (decoder side) / C09: VP9 payload descriptor (draft-ietf-payload-vp9 section 4.2) =====
+//
+//      |I|P|L|F|B|E|V|Z|  then, when present: M|PICTURE ID (7 or 15 bits);  T|U|S|D (+ TL0PICIDX when F=0);
+//      P_DIFF|N up to three times (F=1,P=1);  scalability structure (V)
+//@ pure bool vp9I(p) = bits(p[0], 7, 7) == 1
+//@ pure bool vp9P(p) = bits(p[0], 6, 6) == 1
+//@ pure bool vp9L(p) = bits(p[0], 5, 5) == 1
+//@ pure bool vp9F(p) = bits(p[0], 4, 4) == 1
+//@ pure bool vp9V(p) = bits(p[0], 1, 1) == 1
+//@ pure vp9PidLen(p) = ite(vp9I(p), ite(bits(p[1], 7, 7) == 1, 2, 1), 0)
+//@ pure vp9LOff(p) = 1 + vp9PidLen(p)
+//@ pure vp9RefOff(p) = vp9LOff(p) + ite(vp9L(p), ite(vp9F(p), 1, 2), 0)
+//@ pure vp9NRef(p) = ite(vp9F(p) && vp9P(p), ite(bits(p[vp9RefOff(p)], 0, 0) == 0, 1, ite(bits(p[vp9RefOff(p) + 1], 0, 0) == 0, 2, 3)), 0)
+//@ pure vp9SSOff(p) = vp9RefOff(p) + vp9NRef(p)
+
+//@ spec (*VP9Packet).parsePictureID
+//@   requires 0 <= pos
+//@   modifies p.PictureID
+//@   ensures short [C09,C12]: len(packet) <= pos ==> errIs(err, errShortPacket)
+//@   ensures value [C12,C09]: err == nil ==> result0 == pos + ite(bits(packet[pos], 7, 7) == 1, 2, 1) && result0 <= len(packet) && int(p.PictureID) == ite(bits(packet[pos], 7, 7) == 1, bits(packet[pos], 6, 0) * 256 + int(packet[pos + 1]), bits(packet[pos], 6, 0))
+//@ end
+//@ spec (*VP9Packet).parseLayerInfo
+//@   requires 0 <= pos
+//@   modifies p.TID, p.U, p.SID, p.D, p.TL0PICIDX
+//@   ensures short [C09,C12]: len(packet) <= pos ==> errIs(err, errShortPacket)
+//@   ensures value [C12,C09]: err == nil ==> int(p.TID) == bits(packet[pos], 7, 5) && (p.U <==> bits(packet[pos], 4, 4) == 1) && int(p.SID) == bits(packet[pos], 3, 1) && (p.D <==> bits(packet[pos], 0, 0) == 1)
+//@   ensures tl0 [C12,C09]: err == nil ==> result0 == pos + ite(p.F, 1, 2) && result0 <= len(packet) && (!p.F ==> int(p.TL0PICIDX) == int(packet[pos + 1])) && (p.F ==> p.TL0PICIDX == old(p.TL0PICIDX))
+//@ end
+//@ spec (*VP9Packet).parseRefIndices
+//@   requires 0 <= pos
+//@   requires len(p.PDiff) == 0 && cap(p.PDiff) == 0
+//@   modifies p.PDiff
+//@   loop 0: unroll 4 complete
+//@   ensures short [C09,C12]: len(packet) <= pos ==> errIs(err, errShortPacket)
+//@   ensures count [C12,C09]: err == nil ==> len(p.PDiff) == ite(bits(packet[pos], 0, 0) == 0, 1, ite(bits(packet[pos + 1], 0, 0) == 0, 2, 3)) && result0 == pos + len(p.PDiff) && result0 <= len(packet)
+//@   ensures values [C12,C09]: err == nil ==> (forall k :: 0 <= k && k < len(p.PDiff) ==> int(p.PDiff[k]) == bits(packet[pos + k], 7, 1))
+//@ end
+//@ spec (*VP9Packet).parseSSData
+//@   requires 0 <= pos
+//@   requires len(p.PGTID) == 0 && cap(p.PGTID) == 0 && len(p.PGU) == 0 && cap(p.PGU) == 0 && len(p.PGPDiff) == 0 && cap(p.PGPDiff) == 0
+//@   modifies p.NS, p.Y, p.G, p.NG, p.Width, p.Height, p.PGTID, p.PGU, p.PGPDiff
+//@   loop 0: invariant sizes [C09,C12]: 0 <= i && i <= int(NS) && int(NS) == int(p.NS) + 1 && pos == old(pos) + 1 + 4*i && pos <= len(packet) && len(p.Width) == int(NS) && len(p.Height) == int(NS) && fresh(p.Width) && fresh(p.Height) && !sameobj(p.Width, p.Height)
+//@   loop 0: invariant values [C12]: forall k :: 0 <= k && k < i ==> int(p.Width[k]) == be16(packet, old(pos) + 1 + 4*k) && int(p.Height[k]) == be16(packet, old(pos) + 3 + 4*k)
+//@   loop 1: invariant groups [C09,C12]: 0 <= i && i <= int(p.NG) && old(pos) < pos && pos <= len(packet) && len(p.PGPDiff) == i && len(p.PGTID) == i && len(p.PGU) == i && (fresh(p.PGPDiff) || cap(p.PGPDiff) == 0) && (fresh(p.PGTID) || cap(p.PGTID) == 0) && (fresh(p.PGU) || cap(p.PGU) == 0)
+//@   loop 1: decreases 256 - i
+//@   loop 2: unroll 4 complete
+//@   ensures short [C09,C12]: len(packet) <= pos ==> errIs(err, errShortPacket)
+//@   ensures head [C12,C09]: err == nil ==> int(p.NS) == bits(packet[pos], 7, 5) && (p.Y <==> bits(packet[pos], 4, 4) == 1) && (p.G <==> bits(packet[pos], 3, 3) == 1)
+//@   ensures resolutions [C12,C09]: err == nil && p.Y ==> len(p.Width) == int(p.NS) + 1 && len(p.Height) == int(p.NS) + 1 && (forall k :: 0 <= k && k <= int(p.NS) ==> int(p.Width[k]) == be16(packet, pos + 1 + 4*k) && int(p.Height[k]) == be16(packet, pos + 3 + 4*k))
+//@   ensures no_resolutions [C12,C09]: err == nil && !p.Y ==> len(p.Width) == len(old(p.Width)) && len(p.Height) == len(old(p.Height))
+//@   ensures groups [C12,C09]: err == nil ==> len(p.PGTID) == int(p.NG) && len(p.PGU) == int(p.NG) && len(p.PGPDiff) == int(p.NG) && (!p.G ==> p.NG == 0) && (p.G ==> int(p.NG) == int(packet[pos + 1 + ite(p.Y, 4*int(p.NS) + 4, 0)]))
+//@   ensures consumed [C12,C09]: err == nil ==> pos < result0 && result0 <= len(packet)
+//@ end
+
+//@ spec (*VP9Packet).Unmarshal
+//@   modifies p.*
+//@   ensures nilpacket [C12,C09]: packet == nil ==> errIs(err, errNilPacket)
+//@   ensures empty [C12,C09]: packet != nil && len(packet) == 0 ==> errIs(err, errShortPacket)
+//@   ensures flags [C12,C09]: err == nil ==> (p.I <==> vp9I(packet)) && (p.P <==> vp9P(packet)) && (p.L <==> vp9L(packet)) && (p.F <==> vp9F(packet)) && (p.B <==> bits(packet[0], 3, 3) == 1) && (p.E <==> bits(packet[0], 2, 2) == 1) && (p.V <==> vp9V(packet)) && (p.Z <==> bits(packet[0], 0, 0) == 1)
+//@   ensures picture_id [C12,C09]: err == nil ==> int(p.PictureID) == ite(vp9I(packet), ite(bits(packet[1], 7, 7) == 1, bits(packet[1], 6, 0) * 256 + int(packet[2]), bits(packet[1], 6, 0)), 0)
+//@   ensures layer [C12,C09]: err == nil ==> int(p.TID) == ite(vp9L(packet), bits(packet[vp9LOff(packet)], 7, 5), 0) && (p.U <==> vp9L(packet) && bits(packet[vp9LOff(packet)], 4, 4) == 1) && int(p.SID) == ite(vp9L(packet), bits(packet[vp9LOff(packet)], 3, 1), 0) && (p.D <==> vp9L(packet) && bits(packet[vp9LOff(packet)], 0, 0) == 1)
+//@   ensures tl0picidx [C12,C09]: err == nil ==> int(p.TL0PICIDX) == ite(vp9L(packet) && !vp9F(packet), int(packet[vp9LOff(packet) + 1]), 0)
+//@   ensures ref_indices [C12,C09]: err == nil ==> len(p.PDiff) == vp9NRef(packet) && (forall k :: 0 <= k && k < len(p.PDiff) ==> int(p.PDiff[k]) == bits(packet[vp9RefOff(packet) + k], 7, 1))
+//@   ensures no_ss [C12,C09]: err == nil && !vp9V(packet) ==> sameobj(result0, packet) && off(result0) == off(packet) + vp9SSOff(packet) && len(result0) == len(packet) - vp9SSOff(packet) && len(p.Width) == 0 && len(p.Height) == 0 && len(p.PGTID) == 0 && len(p.PGU) == 0 && len(p.PGPDiff) == 0 && p.NS == 0 && p.NG == 0 && !p.Y && !p.G
+//@   ensures ss_head [C12,C09]: err == nil && vp9V(packet) ==> int(p.NS) == bits(packet[vp9SSOff(packet)], 7, 5) && (p.Y <==> bits(packet[vp9SSOff(packet)], 4, 4) == 1) && (p.G <==> bits(packet[vp9SSOff(packet)], 3, 3) == 1) && (p.Y ==> len(p.Width) == int(p.NS) + 1 && len(p.Height) == int(p.NS) + 1) && len(p.PGTID) == int(p.NG) && len(p.PGU) == int(p.NG) && len(p.PGPDiff) == int(p.NG)
+//@   ensures ss_resolutions [C12,C09]: err == nil && vp9V(packet) && p.Y ==> (forall k :: 0 <= k && k <= int(p.NS) ==> int(p.Width[k]) == be16(packet, vp9SSOff(packet) + 1 + 4*k) && int(p.Height[k]) == be16(packet, vp9SSOff(packet) + 3 + 4*k))
+//@   ensures ss_groups [C12,C09]: err == nil && vp9V(packet) ==> (!p.G ==> p.NG == 0) && (p.G ==> int(p.NG) == int(packet[vp9SSOff(packet) + 1 + ite(p.Y, 4*int(p.NS) + 4, 0)]))
+//@   ensures kept [C12,C09]: err == nil ==> sameobj(result0, packet) && sameobj(p.Payload, packet) && off(p.Payload) == off(result0) && len(p.Payload) == len(result0) && off(result0) + len(result0) == off(packet) + len(packet)
+//@ end
+//@ spec (*VP9Packet).IsPartitionHead
+//@   ensures b_bit [C12,C09]: result0 <==> (len(payload) >= 1 && bits(payload[0], 3, 3) == 1)
+//@ end
